@@ -113,6 +113,23 @@ def run(F, rep):
             rep.ob("C15-E1", "result of %s in %s" % (_short(t["callee"]), _short(f.key)), ok,
                    detail="fate: %s%s" % (fate, " (frozen exception: Drop cannot propagate; E2 makes it irrelevant on success paths)" if exc else ""),
                    site=site_of(f, t), how="table" if exc else "auto", key="C15-E1 | %s | %s" % (f.key, t["callee"]))
+        # a std combinator that runs a closure which writes (try_for_each, try_fold, map + collect ...): the errors of the
+        # closure come back as the combinator's result
+        clos = {}
+        for b in f.blocks:
+            for s_ in b["stmts"]:
+                if s_["k"] == "assign" and s_["rv"]["k"] == "agg" and s_["rv"].get("ak") == "closure" and not s_["pl"]["p"]:
+                    clos[s_["pl"]["l"]] = s_["rv"]["closure"]
+        for bi, t in f.calls():
+            if t.get("indirect") or t["callee"] in F.funcs or not t["dest"]["ty"].startswith("core::result::Result<"):
+                continue
+            carried = [clos[a["pl"]["l"]] for a in t["args"] if a["k"] in ("move", "copy") and not a["pl"]["p"] and a["pl"]["l"] in clos and clos[a["pl"]["l"]] in W]
+            for ck in carried:
+                n_sites += 1
+                fate = result_fate(F, f, bi, t)
+                rep.ob("C15-E1", "result of %s carrying the write errors of its closure in %s" % (t["callee"].rsplit("::", 1)[-1], _short(f.key)),
+                       fate in ("propagated", "returned"), detail="fate: %s" % fate, site=site_of(f, t),
+                       key="C15-E1 | %s | %s via %s" % (f.key, ck.rsplit("::", 2)[-1], t["callee"].rsplit("::", 1)[-1]))
         # primitive writes inside the archive itself
         if f.key in prim:
             for bi, t in f.calls():
